@@ -45,6 +45,14 @@ type seqGen struct {
 
 // keys include 0 and, once per script, the value 0 is written: zero values are where encoders and "absent" markers go wrong
 func (g *seqGen) key() int { return g.r.intn(g.nkeys + 1) }
+
+// cx: every eighth loading call is made with an already-cancelled context (suffix "~" on the op name)
+func (g *seqGen) cx() string {
+	if g.r.chance(0.12) {
+		return "~"
+	}
+	return ""
+}
 func (g *seqGen) val() int {
 	if !g.zeroUsed && g.r.chance(0.08) {
 		g.zeroUsed = true
@@ -59,6 +67,9 @@ func (g *seqGen) add(f string, a ...any) {
 		// known finding K1: a key rewritten before the executor replayed its previous write event ends up
 		// unknown to the eviction policy.  Keep this profile K1-free: pump the executor first.
 		t := strings.Fields(line)
+		if len(t) > 0 {
+			t[0] = strings.TrimSuffix(t[0], "~")
+		}
 		writes := map[string]bool{"set": true, "sia": true, "compute": true, "cia": true, "cip": true, "inval": true,
 			"load": true, "bulkget": true, "refresh": true, "bulkrefresh": true, "invalall": true, "loadfrom": true, "save": true}
 		if len(t) > 0 && (t[0] == "runexec" || t[0] == "cleanup" || t[0] == "bound") {
@@ -294,7 +305,7 @@ func (g *seqGen) loaderOp() {
 	switch r.intn(10) {
 	case 0, 1, 2, 3:
 		k := g.key()
-		g.add("load %d %s/%s%s%s", k, g.outcome(), g.outcome(), g.nestedBlock([]int{k}), g.afterRetBlock([]int{k}))
+		g.add("load%s %d %s/%s%s%s", g.cx(), k, g.outcome(), g.outcome(), g.nestedBlock([]int{k}), g.afterRetBlock([]int{k}))
 	case 4, 5, 6:
 		n := 1 + r.intn(4)
 		var ks []int
@@ -304,10 +315,10 @@ func (g *seqGen) loaderOp() {
 			ks = append(ks, k)
 			ss = append(ss, fmt.Sprint(k))
 		}
-		g.add("bulkget %s %s/%s%s%s", strings.Join(ss, ","), g.bulkOutcome(ks), g.bulkOutcome(ks), g.nestedBlock(ks), g.afterRetBlock(ks))
+		g.add("bulkget%s %s %s/%s%s%s", g.cx(), strings.Join(ss, ","), g.bulkOutcome(ks), g.bulkOutcome(ks), g.nestedBlock(ks), g.afterRetBlock(ks))
 	case 7, 8:
 		k := g.key()
-		g.add("refresh %d %s/%s%s%s", k, g.outcome(), g.outcome(), g.nestedBlock([]int{k}), g.afterRetBlock([]int{k}))
+		g.add("refresh%s %d %s/%s%s%s", g.cx(), k, g.outcome(), g.outcome(), g.nestedBlock([]int{k}), g.afterRetBlock([]int{k}))
 	default:
 		n := 1 + r.intn(3)
 		var ks []int
@@ -317,7 +328,7 @@ func (g *seqGen) loaderOp() {
 			ks = append(ks, k)
 			ss = append(ss, fmt.Sprint(k))
 		}
-		g.add("bulkrefresh %s %s/%s%s", strings.Join(ss, ","), g.bulkOutcome(ks), g.bulkOutcome(ks), g.nestedBlock(ks))
+		g.add("bulkrefresh%s %s %s/%s%s", g.cx(), strings.Join(ss, ","), g.bulkOutcome(ks), g.bulkOutcome(ks), g.nestedBlock(ks))
 	}
 }
 
